@@ -1,5 +1,6 @@
 import Gql.Text.Lexer
 import Gql.Proofs.Location
+import Gql.Proofs.LexerBasic
 /-!
 Line bookkeeping of the lexer against the specification's line/column (C10-2).
 Part 1: how the prefix scan (`scan (body.take p) 0 0`, which `getLocation_eq_spec` ties to
@@ -302,7 +303,7 @@ end Gql.Text
 namespace Gql.Text
 open Spec
 
-theorem charAt_some_lt (body : List Nat) (i c : Nat) (h : charAt body i = some c) :
+theorem charAt_some_get (body : List Nat) (i c : Nat) (h : charAt body i = some c) :
     ∃ hl : i < body.length, body[i] = c := by
   unfold charAt at h
   rcases Nat.lt_or_ge i body.length with x | x
@@ -321,15 +322,119 @@ theorem readDigits_spec (body : List Nat) (start r : Nat)
     | none => rw [hc] at hd; simp [isDigitOpt] at hd
     | some c =>
       rw [hc] at hd
-      obtain ⟨hl, he⟩ := charAt_some_lt body start c hc
+      obtain ⟨hl, he⟩ := charAt_some_get body start c hc
       obtain ⟨a, b, d⟩ := digitsLoop_spec body (start + 1) r h (by omega)
       refine ⟨by omega, b, d.cons hl ?_⟩
       rw [he]; exact isDigit_not_nl c (by simpa [isDigitOpt] using hd)
 
-/-- State threaded through `read_number`: the scanned stretch `[start, position)` has no line
-terminator, and `char` is the (optional) character at `position`. -/
-def NumInv (body : List Nat) (start position : Nat) (char : Option Nat) : Prop :=
-  start ≤ position ∧ position ≤ body.length + 1 ∧ NoNL body start position ∧
-    char = charAt body position ∧ (position = body.length + 1 → False)
+end Gql.Text
+
+namespace Gql.Text
+open Spec
+
+/-- What a single-line token reader guarantees: the token carries the lexer's current line and
+the column of its start, and its span contains no line terminator. -/
+def TokLine (body : List Nat) (st : LexState) (start : Nat) (t : Token) : Prop :=
+  t.start = start ∧ t.line = st.line ∧ t.column = 1 + start - st.lineStart ∧
+    start < t.stop ∧ t.stop ≤ body.length ∧ NoNL body start t.stop
+
+theorem post_of_spec {α : Type} {x : LexOut α} {P : α → Prop} (hc : ¬ x.isCrash)
+    (h : ∀ a, x = .ok a → P a) : Post P x := by
+  cases x with
+  | ok a => exact h a rfl
+  | err e => trivial
+  | crash c => simp [Out.isCrash] at hc
+
+theorem readDigits_nonl (body : List Nat) (s : Nat) :
+    Post (fun q => s < q ∧ q ≤ body.length ∧ NoNL body s q) (readDigits body s (charAt body s)) := by
+  apply post_of_spec
+  · exact (readDigits_post body s).noCrash
+  · intro q hq; exact readDigits_spec body s q hq
+
+theorem readNumber_line (body : List Nat) (st : LexState) (start first : Nat)
+    (h : charAt body start = some first) (hf : isDigit first = true ∨ first = 45) :
+    Post (TokLine body st start) (readNumber body st start first) := by
+  unfold readNumber
+  extract_lets pos0 ch0 fl0 jpFin fl1 jpExpD jpExp jpFrac jpInt pos1 ch1
+  obtain ⟨hlen, hget⟩ := charAt_some_get body start first h
+  have hfirst : body[start] ≠ 10 ∧ body[start] ≠ 13 := by
+    rw [hget]
+    rcases hf with hf | hf
+    · exact isDigit_not_nl _ hf
+    · subst hf; simp
+  have hFin : ∀ r p f, start < p → p ≤ body.length → NoNL body start p →
+      Post (TokLine body st start) (jpFin r p (charAt body p) f) := by
+    intro r p f h1 h2 h3
+    simp only [jpFin]
+    split
+    · simp
+    · cases f <;> simp [TokLine, mkToken] <;> exact ⟨h1, h2, h3⟩
+  have step1 : ∀ p c, start ≤ p → NoNL body start p → charAt body p = some c → c ≠ 10 ∧ c ≠ 13 →
+      p < body.length ∧ NoNL body start (p + 1) := by
+    intro p c _ h3 hc hn
+    obtain ⟨hl, hg⟩ := charAt_some_get body p c hc
+    exact ⟨hl, h3.snoc hl (by rw [hg]; exact hn)⟩
+  have hExpD : ∀ r p, start < p → NoNL body start p →
+      Post (TokLine body st start) (jpExpD r p (charAt body p)) := by
+    intro r p h1 h3
+    simp only [jpExpD]
+    refine (readDigits_nonl body p).bind ?_
+    intro q hq
+    exact hFin () _ _ (by omega) hq.2.1 (h3.trans hq.2.2)
+  have hExp : ∀ r p f, start < p → p ≤ body.length → NoNL body start p →
+      Post (TokLine body st start) (jpExp r p (charAt body p) f) := by
+    intro r p f h1 h2 h3
+    simp only [jpExp]
+    split
+    · rename_i he
+      have hp1 : p < body.length ∧ NoNL body start (p + 1) := by
+        rcases he with he | he
+        · exact step1 p 69 (by omega) h3 he (by simp)
+        · exact step1 p 101 (by omega) h3 he (by simp)
+      split
+      · rename_i hs
+        have hp2 : p + 1 < body.length ∧ NoNL body start (p + 1 + 1) := by
+          rcases hs with hs | hs
+          · exact step1 (p + 1) 43 (by omega) hp1.2 hs (by simp)
+          · exact step1 (p + 1) 45 (by omega) hp1.2 hs (by simp)
+        exact hExpD () _ (by omega) hp2.2
+      · exact hExpD () _ (by omega) hp1.2
+    · exact hFin () _ _ h1 h2 h3
+  have hFrac : ∀ r p, start < p → p ≤ body.length → NoNL body start p →
+      Post (TokLine body st start) (jpFrac r p (charAt body p)) := by
+    intro r p h1 h2 h3
+    simp only [jpFrac]
+    split
+    · rename_i hd
+      have hp1 := step1 p 46 (by omega) h3 hd (by simp)
+      refine (readDigits_nonl body _).bind ?_
+      intro q hq
+      exact hExp () _ _ (by omega) hq.2.1 (hp1.2.trans hq.2.2)
+    · exact hExp () _ _ h1 h2 h3
+  have hInt : ∀ r p, start ≤ p → NoNL body start p → (p = start → isDigit first = true) →
+      Post (TokLine body st start) (jpInt r p (charAt body p)) := by
+    intro r p h1 h3 hd
+    simp only [jpInt]
+    split
+    · rename_i h48
+      have hp1 := step1 p 48 h1 h3 h48 (by simp)
+      split
+      · simp
+      · exact hFrac () _ (by omega) (by omega) hp1.2
+    · refine (readDigits_nonl body _).bind ?_
+      intro q hq
+      exact hFrac () _ (by omega) hq.2.1 (h3.trans hq.2.2)
+  split
+  · rename_i hminus
+    have : first = 45 := by simpa [ch0] using hminus
+    exact hInt () _ (by simp [pos1, pos0]) ((NoNL.refl body start).snoc hlen hfirst) (by simp [pos1, pos0])
+  · rename_i hminus
+    have hd : isDigit first = true := by
+      rcases hf with hf | hf
+      · exact hf
+      · exact absurd (by simp [ch0, hf]) hminus
+    have : ch0 = charAt body pos0 := by simp [ch0, pos0, h]
+    rw [this]
+    exact hInt () _ (by simp [pos0]) (NoNL.refl _ _) (fun _ => hd)
 
 end Gql.Text
